@@ -516,6 +516,10 @@ func (p *prober) wantEnum() []string {
 }
 
 func (p *prober) short(list []string) string {
+	if len(list) > 12 {
+		// bulk scenarios: first and last entries are enough to read a report
+		return fmt.Sprintf("%d entries %s … %s", len(list), p.short(list[:3]), p.short(list[len(list)-3:]))
+	}
 	out := make([]string, len(list))
 	for i, s := range list {
 		ref, sz := s, ""
